@@ -18,7 +18,9 @@
 //     first delete;
 //   - fieldWriters: every assignment to / composite-literal initialisation of the fields registrationTime,
 //     status (DecoyTimeout) and Valid (DecoyRegistration) in the package: (field, function, how);
-//   - mapWrites: which functions assign into / delete from r.decoys and r.decoysTimeouts.
+//   - mapWrites: which functions assign into / delete from r.decoys and r.decoysTimeouts;
+//   - registryLockAcquisitions: every call of a method of the registry lock r.m (Lock / RLock / Unlock /
+//     RUnlock — or a Try* variant, which can refuse instead of wait).
 package main
 
 import (
@@ -396,12 +398,53 @@ func main() {
 			return true
 		})
 	}
+	// ---- acquisitions of the registry lock (the field `m` of RegisteredDecoys): x.m.<Method>() anywhere in the package
+	var locks []string
+	for _, f := range all {
+		fname := f.decl.Name.Name
+		ast.Inspect(f.decl.Body, func(n ast.Node) bool {
+			c, ok := n.(*ast.CallExpr)
+			if !ok {
+				return true
+			}
+			sel, ok := c.Fun.(*ast.SelectorExpr)
+			if !ok {
+				return true
+			}
+			inner, ok := sel.X.(*ast.SelectorExpr)
+			if !ok || inner.Sel.Name != "m" {
+				return true
+			}
+			// only the lock of a RegisteredDecoys: the holder is the receiver of one of its methods, or a
+			// `….registeredDecoys` field, or a variable named rd / r of such a method
+			isReg := false
+			if _, ok := funcs[fname]; ok && f.decl.Recv != nil {
+				if id, ok := inner.X.(*ast.Ident); ok && len(f.decl.Recv.List) == 1 && len(f.decl.Recv.List[0].Names) == 1 && id.Name == f.decl.Recv.List[0].Names[0].Name {
+					if st, ok := f.decl.Recv.List[0].Type.(*ast.StarExpr); ok {
+						if tid, ok := st.X.(*ast.Ident); ok && tid.Name == "RegisteredDecoys" {
+							isReg = true
+						}
+					}
+				}
+			}
+			if h, ok := inner.X.(*ast.SelectorExpr); ok && h.Sel.Name == "registeredDecoys" {
+				isReg = true
+			}
+			if isReg {
+				locks = append(locks, fmt.Sprintf("(%q, %q)", fname, sel.Sel.Name))
+			}
+			return true
+		})
+	}
+	sort.Strings(locks)
 	sort.Strings(writers)
 	sort.Strings(mapw)
 	b.WriteString("/-- every write to the fields `registrationTime`, `status` (DecoyTimeout) and `Valid` (DecoyRegistration)\nin the package (non-test files): (field, function, how) -/\n")
 	fmt.Fprintf(&b, "def fieldWriters : List (String × String × String) := [\n  %s\n]\n\n", strings.Join(writers, ",\n  "))
 	b.WriteString("/-- which functions assign into / delete from `decoys` and `decoysTimeouts`: (map, function, how) -/\n")
-	fmt.Fprintf(&b, "def registryMapWrites : List (String × String × String) := [\n  %s\n]\n\nend CJ.Gen\n", strings.Join(mapw, ",\n  "))
+	fmt.Fprintf(&b, "def registryMapWrites : List (String × String × String) := [\n  %s\n]\n\n", strings.Join(mapw, ",\n  "))
+	b.WriteString("/-- every call of a method of the registry lock (`RegisteredDecoys.m`): (function, method) -/\n")
+	fmt.Fprintf(&b, "def registryLockAcquisitions : List (String × String) := [\n  %s\n]\n\nend CJ.Gen\n", strings.Join(locks, ",\n  "))
 	if err := os.WriteFile(out, []byte(b.String()), 0o644); err != nil {
 		panic(err)
 	}
